@@ -37,7 +37,8 @@ TEMPLATES = [
     'a @;', 'x = a @;', '1 @;', '1.5 @;', '"s" @;', "'t' @;", '/x/ @;', 'x = /x/g @;', 'this @;', 'null @;',
     'true @;', 'false @;', 'a.b @;', 'a[0] @;', 'f() @;', 'f(a, b) @;', '(a) @;', '(a, b) @;', '[1] @;', '[] @;',
     'x = {} @;', 'x = {a: 1} @;', '({}) @;', 'x = function(){} @;', '(function(){}) @;', 'x = function g(a){ } @;',
-    'a++ @;', 'a-- @;', 'a.return @;', 'a.in @;', 'a.if @;', 'a.typeof @;', 'a.class @;', 'a.this @;',
+    'a++ @;', 'a-- @;', '(a)++ @;', '(this.hits)-- @;', 'o.in++ @;', 'o.default-- @;', 'a[0]++ @;', 'x = (a.b)++ @;',
+    'a.return @;', 'a.in @;', 'a.if @;', 'a.typeof @;', 'a.class @;', 'a.this @;',
     'a.null @;', 'a.true @;', '({in: 1}).in @;', 'x = a.b.new @;', 'new A @;', 'new A() @;', 'x = {a: 1}.a @;',
     'a.get @;', 'a.set @;', 'x = a[b](c) @;', 'x = (a)(b) @;', 'x = a.b.c @;', 'a.delete @;', 'a.void @;',
     'a.else @;', 'a.do @;', 'a.case @;', 'a.instanceof @;', 'a.var @;', 'a.function @;',
